@@ -1400,6 +1400,8 @@ impl Exit for VirtualSystem {
     fn exit(&self, exit_status: ExitStatus) -> impl Future<Output = Infallible> + use<> {
         let mut myself = self.current_process_mut();
         let parent_pid = myself.ppid;
+        // Like a real kernel, only the least significant 8 bits are reported.
+        let exit_status = ExitStatus(exit_status.0 & 0xFF);
         let exited = myself.set_state(ProcessState::exited(exit_status));
         drop(myself);
         if exited {
